@@ -160,6 +160,26 @@ def _check_world(w, r, where):
                     r.bad(["unit-mismatch", e.kind], f"{where}: pool[{ei}] alias {oi} comp {ci}: unit {a.unit}, model "
                           f"factor {m.unit[0]!r} dims {[str(x) for x in m.unit[1]]}")
                     return
+    # the norm of every tracked Vector must follow its components (no stale derived state)
+    for ei, e in enumerate(w.pool):
+        if e.kind != "V" or len(e.comps) < 2:
+            continue
+        want = np.sqrt(sum(w.raw(m) ** 2 for m in e.comps))
+        for oi, obj in enumerate(e.objs):
+            try:
+                got = np.asarray(obj.norm.values, dtype=np.float64)
+            except Exception as ex:
+                r.bad(["norm-raises", type(ex).__name__], f"{where}: {ex!r}")
+                return
+            lowp = any(m.lowp or w.buf_lowp.get(m.buf) for m in e.comps)
+            tol = 1e-5 if lowp else 1e-9
+            with np.errstate(all="ignore"):
+                ok = (np.abs(got - want) <= tol * np.abs(want)) | (got == want) | ~np.isfinite(want) | (np.abs(want) > 1e30)
+                if e.comps[0].dtype.startswith("int"):
+                    ok |= np.abs(want) > 3e4      # integer squares may overflow: numpy's business
+            if got.shape != want.shape or not np.all(ok):
+                r.bad(["norm-stale"], f"{where}: pool[{ei}] alias {oi}: norm {got.tolist()} but components give {want.tolist()}")
+                return
     for ci, (dg, dm) in enumerate(list(zip(w.dgs, w.dgm)) + w.extra):
         try:
             keys = list(dg.keys())
